@@ -48,6 +48,36 @@ func (d *dataWorld) insertChecked(tp *simkit.Tape, rows [][]sqlmini.Value, speci
 		d.fail("harness", "transport error on insert: %v", o.err)
 		return false
 	}
+	if o.err != nil && d.faulted {
+		// a backend connection broke: some slices may hold their rows, but no row twice; the reference follows the shards
+		stats["insert-failed-under-fault"]++
+		have := map[string]int{}
+		for _, x := range flatten(before) {
+			have[x]--
+		}
+		for _, x := range flatten(after) {
+			have[x]++
+		}
+		stmtRows := map[string]int{}
+		for _, x := range multiset(rows) {
+			stmtRows[x]++
+		}
+		for x, n := range have {
+			if n < 0 || n > stmtRows[x] {
+				if d.fail("C03-rows-not-stored-exactly-once", "%q failed with %v after a backend connection broke; row %s is now stored %+d times more than before (the statement carries it %d times)", sql, o.err, x, n, stmtRows[x]) {
+					return false
+				}
+			}
+		}
+		rt := d.ref.Get(rule.db, rule.table)
+		for _, row := range rows {
+			if have[rowKey(row)] > 0 {
+				have[rowKey(row)]--
+				rt.Rows = append(rt.Rows, append([]sqlmini.Value{}, row...))
+			}
+		}
+		return true
+	}
 	if o.err != nil {
 		stats["insert-rejected"]++
 		if !sameStrings(flatten(before), flatten(after)) {
@@ -58,6 +88,16 @@ func (d *dataWorld) insertChecked(tp *simkit.Tape, rows [][]sqlmini.Value, speci
 		return true
 	}
 	stats["insert-accepted"]++
+	if rule.inRange != nil {
+		for _, row := range rows {
+			if k := row[d.keyIndex()]; !rule.inRange(k) {
+				stats["insert-out-of-range-key"]++
+				if d.fail("C03-unroutable-row-accepted", "%q was accepted although the sharding value %s of row %v lies outside every configured range of the %s rule (%+v)", sql, k.String(), rowKey(row), rule.typ, *rule.shard) {
+					return false
+				}
+			}
+		}
+	}
 	want := append([]string{}, flatten(before)...)
 	want = append(want, multiset(rows)...)
 	sort.Strings(want)
@@ -164,7 +204,9 @@ func (d *dataWorld) opInsert(tp *simkit.Tape, stats map[string]int) {
 					sp = "(" + lit(k) + ")"
 				}
 			} else {
-				switch tp.Choose(6) {
+				switch tp.Choose(7) {
+				case 6:
+					k, sp = sqlmini.Int(-k.I-1), fmt.Sprintf("'-%d'", k.I+1)
 				case 0:
 					k, sp = sqlmini.Int(-k.I-1), fmt.Sprintf("-%d", k.I+1)
 				case 1:
@@ -189,7 +231,13 @@ func (d *dataWorld) opInsert(tp *simkit.Tape, stats map[string]int) {
 	if !anySpecial {
 		special = nil
 	}
+	if len(rows) > 1 && tp.Chance(1, 4) {
+		// one backend's connection breaks when its part of the statement arrives
+		d.breakInsertOn = stripAddr(d.w.NS["ns1"].Slices[tp.Choose(d.rule.nSlices)].Master)
+		d.faulted = true
+	}
 	d.insertChecked(tp, rows, special, stats)
+	d.breakInsertOn, d.faulted = "", false
 }
 
 // ---------- conditions (C01 grammar) ----------
@@ -353,7 +401,7 @@ func (d *dataWorld) opSelect(tp *simkit.Tape, stats map[string]int) {
 	ordered := 0 // number of leading result columns that form the ORDER BY key (0: unordered)
 	desc := []bool{}
 	shape := ""
-	pick := tp.Choose(10)
+	pick := tp.Choose(13)
 	if pick == 4 && simkit.Params["partition"] == "strict" {
 		pick = 5 // the strict partition leaves out the statements of known findings C02-F1 and C02-F2
 	}
@@ -395,6 +443,14 @@ func (d *dataWorld) opSelect(tp *simkit.Tape, stats map[string]int) {
 		d1, d2 := tp.Chance(1, 2), tp.Chance(1, 2)
 		sql = fmt.Sprintf("select g, v, id from %s where %s order by g %s, v %s", t, cond, map[bool]string{true: "desc", false: "asc"}[d1], map[bool]string{true: "desc", false: "asc"}[d2])
 		ordered, desc = 2, []bool{d1, d2}
+	case 10:
+		shape, sql = "aggregates-string", fmt.Sprintf("select max(name), min(name), count(name) from %s where %s", t, cond)
+	case 11:
+		shape = "union-mixed"
+		sql = fmt.Sprintf("select id, g from %s where %s", t, cond)
+		for i := 0; i < tp.Range(2, 3); i++ {
+			sql += []string{" union ", " union all "}[tp.Choose(2)] + fmt.Sprintf("select id, g from %s where %s", t, d.condition(tp, 1))
+		}
 	default:
 		shape = "union"
 		all := ""
@@ -404,7 +460,7 @@ func (d *dataWorld) opSelect(tp *simkit.Tape, stats map[string]int) {
 		sql = fmt.Sprintf("select id, g from %s where %s union%s select id, g from %s where %s", t, cond, all, t, d.condition(tp, 2))
 	}
 	var hold []string
-	if shape != "union" {
+	if !strings.HasPrefix(shape, "union") {
 		var herr error
 		hold, herr = d.holders(cond)
 		if herr != nil {
@@ -437,7 +493,7 @@ func (d *dataWorld) opSelect(tp *simkit.Tape, stats map[string]int) {
 			}
 		}
 	}
-	if shape != "union" && !d.checkRouting("select", sql, cond, hold, o, stats) {
+	if !strings.HasPrefix(shape, "union") && !d.checkRouting("select", sql, cond, hold, o, stats) {
 		return
 	}
 	// C02: the result equals the reference
@@ -540,13 +596,32 @@ func (d *dataWorld) opModify(tp *simkit.Tape, stats map[string]int) {
 		// assigning the sharding column must be refused
 		kind, mustReject = "update-sharding-column", true
 		target := rule.key
-		switch tp.Choose(3) {
+		tref, sqlCond := t, ""
+		switch tp.Choose(5) {
 		case 1:
 			target = t + "." + rule.key
 		case 2:
 			target = strings.ToUpper(rule.key)
+		case 3:
+			// through an alias
+			tref, target, cond, sqlCond = t+" as xa", "xa."+rule.key, "g = 1", "xa.g = 1"
 		}
-		sql = fmt.Sprintf("update %s set v = 1, %s = %s where %s", t, target, lit(rule.keys[tp.Choose(len(rule.keys))]), cond)
+		if sqlCond == "" {
+			sqlCond = cond
+		}
+		sql = fmt.Sprintf("update %s set v = 1, %s = %s where %s", tref, target, lit(rule.keys[tp.Choose(len(rule.keys))]), sqlCond)
+		if tp.Chance(1, 4) {
+			// the same through INSERT ... ON DUPLICATE KEY UPDATE
+			row := d.newRow(tp, rule.keys[tp.Choose(len(rule.keys))])
+			d.nextID--
+			rhs := lit(rule.keys[tp.Choose(len(rule.keys))])
+			if tp.Chance(1, 2) {
+				rhs = "values(v)"
+			}
+			kind = "insert-on-duplicate-sharding-column"
+			sql = insertSQL(t, [][]sqlmini.Value{row}, false) + fmt.Sprintf(" on duplicate key update %s = %s", rule.key, rhs)
+			cond = "g = -99"
+		}
 	default:
 		kind, sql = "delete", fmt.Sprintf("delete from %s where %s", t, cond)
 	}
@@ -623,7 +698,7 @@ func (d *dataWorld) globalCopies() []string {
 	var out []string
 	ns := d.w.NS["ns1"]
 	if d.rule.mycat {
-		for i, db := range d.rule.shard.Databases {
+		for i, db := range d.gcopies {
 			sl := ns.Slices[i/d.rule.perSlice]
 			out = append(out, stripAddr(sl.Master)+"|"+sqlmini.Key(db, d.global))
 		}
@@ -645,6 +720,17 @@ func (d *dataWorld) opGlobal(tp *simkit.Tape, stats map[string]int) {
 	case 2:
 		name = "`" + g + "`"
 	}
+	if d.sessDB != d.gdb {
+		name = d.gdb + "." + g
+	}
+	// a condition with a qualified IN list
+	inCond := func(q string) string {
+		not := ""
+		if tp.Chance(1, 3) {
+			not = "not "
+		}
+		return fmt.Sprintf("%sg %sin (%d, %d)", q, not, tp.Choose(4), tp.Choose(4))
+	}
 	var sql, kind string
 	write := true
 	switch tp.Choose(5) {
@@ -655,10 +741,19 @@ func (d *dataWorld) opGlobal(tp *simkit.Tape, stats map[string]int) {
 		kind, sql = "insert", insertSQL(name, [][]sqlmini.Value{row}, false)
 	case 1:
 		kind, sql = "update", fmt.Sprintf("update %s set v = %d where g = %d", name, tp.Choose(90), tp.Choose(4))
+		if tp.Chance(1, 2) {
+			sql = fmt.Sprintf("update %s set v = %d where %s", name, tp.Choose(90), inCond(g+"."))
+		}
 	case 2:
 		kind, sql = "delete", fmt.Sprintf("delete from %s where v = %d", name, tp.Choose(30)-5)
+		if tp.Chance(1, 2) {
+			sql = fmt.Sprintf("delete from %s where %s and v < 3", name, inCond(g+"."))
+		}
 	case 3:
 		kind, sql, write = "select", fmt.Sprintf("select id, v from %s as ga where ga.g = %d", name, tp.Choose(4)), false
+		if tp.Chance(1, 2) {
+			sql = fmt.Sprintf("select id, v from %s as ga where %s", name, inCond("ga."))
+		}
 	default:
 		kind, sql, write = "select", fmt.Sprintf("select count(*) from %s", name), false
 	}
@@ -744,16 +839,29 @@ func (d *dataWorld) opFastPath(tp *simkit.Tape, stats map[string]int) {
 	case 6:
 		name = t + "/* c */"
 	}
+	if d.sessDB != rule.db {
+		name = []string{rule.db + "." + t, "`" + rule.db + "`.`" + t + "`", rule.db + "." + strings.ToUpper(t)}[tp.Choose(3)]
+	}
+	plain := "t_plain"
+	if d.sessDB != rule.db {
+		plain = rule.db + ".t_plain"
+	}
 	var sql string
-	switch tp.Choose(9) {
+	routeCond := "" // for the plain forms: the condition whose matching sub-tables must all be reached
+	form := tp.Choose(9)
+	if d.sessDB != rule.db && tp.Chance(1, 2) {
+		form = []int{0, 8}[tp.Choose(2)] // the plain forms, whose routing can be checked
+	}
+	switch form {
 	case 0, 1:
+		routeCond = "v > -100"
 		sql = fmt.Sprintf("select id, name from %s where v > -100", name)
 	case 2:
-		sql = fmt.Sprintf("select a.id from t_plain a, %s b where a.id = b.id", name)
+		sql = fmt.Sprintf("select a.id from %s a, %s b where a.id = b.id", plain, name)
 	case 3:
-		sql = fmt.Sprintf("select a.id from t_plain a join %s b on a.id = b.id", name)
+		sql = fmt.Sprintf("select a.id from %s a join %s b on a.id = b.id", plain, name)
 	case 4:
-		sql = fmt.Sprintf("select id from t_plain where id in (select id from %s)", name)
+		sql = fmt.Sprintf("select id from %s where id in (select id from %s)", plain, name)
 	case 5:
 		sql = fmt.Sprintf("select id from (select id from %s where v > -100) x", name)
 	case 6:
@@ -761,10 +869,19 @@ func (d *dataWorld) opFastPath(tp *simkit.Tape, stats map[string]int) {
 	case 7:
 		sql = fmt.Sprintf("update %s set v = 7 where id = 666001", name)
 	default:
+		routeCond = "1 = 1"
 		sql = fmt.Sprintf("select count(*) from %s", name)
 	}
 	if tp.Chance(1, 4) {
 		sql = strings.Replace(sql, "select ", "SELECT\t", 1)
+	}
+	var hold []string
+	if routeCond != "" {
+		var herr error
+		if hold, herr = d.holders(routeCond); herr != nil {
+			d.fail("harness", "evaluating %q: %v", routeCond, herr)
+			return
+		}
 	}
 	o := d.run(sql)
 	d.r.Sched("op", fmt.Sprintf("fastpath/%v", o.err == nil))
@@ -781,6 +898,15 @@ func (d *dataWorld) opFastPath(tp *simkit.Tape, stats map[string]int) {
 					d.fail("C06-decoy-row-returned", "%q returned a row of the decoy table that carries the logical name on the default slice: %s", sql, textRow(row))
 					return
 				}
+			}
+		}
+	}
+	// a statement on the sharded table that was accepted must have been sharded: every sub-table with matching rows got it
+	if o.err == nil && routeCond != "" {
+		for _, h := range hold {
+			if o.received[h] == 0 {
+				d.fail("C06-sharded-table-statement-not-sharded", "%q (session database %s) names the sharded table %s.%s; sub-table %s holds matching rows but did not receive it; the backends received %q", sql, d.sessDB, rule.db, t, h, o.recvSQL)
+				return
 			}
 		}
 	}
